@@ -21,7 +21,7 @@ use zipora::memory::cache::CacheAlignedVec;
 use zipora::memory::{MmapVec, MmapVecConfig};
 
 const HEADER: &str = r#"From ZV.Common Require Import Base Run.
-From ZV.C10 Require Import Model ModelValVec32 ModelCases.
+From ZV.C10 Require Import Model ModelValVec32 ModelArena ModelStrVec ModelFixedLen ModelCases.
 Open Scope N_scope.
 "#;
 
@@ -674,7 +674,7 @@ fn str_case(cx: &mut Ctx, kind: u64, strs: &[String], mode: u64) {
         "AdvancedStringVec/level0", "AdvancedStringVec/level1", "AdvancedStringVec/level2", "AdvancedStringVec/level3"];
     let cell = names[(kind as usize).min(12)];
     cx.sum.eval(cell, &format!("{} {} {:?}", cell, mode, strs), strs.len() >= 2);
-    cx.sum.cell_status(cell, "S-only");
+    cx.sum.cell_status(cell, if kind <= 3 { "M+S" } else { "S-only" });
     let cj = json!({"cell": "str", "kind": kind, "mode": mode, "strs": strs});
     let r: Result<Option<(Option<&'static str>, String)>, String> = guarded(|| -> Option<(Option<&'static str>, String)> {
         match kind {
@@ -809,6 +809,190 @@ fn str_case(cx: &mut Ctx, kind: u64, strs: &[String], mode: u64) {
 }
 
 // ---------------------------------------------------------------------------------------------
+// string-vector histories (M+S): SortableStrVec and FixedLenStrVec<N>
+//   an operation is [code, arg]: the argument is a string, an index, or [byte, count] for a run of one byte
+// ---------------------------------------------------------------------------------------------
+fn enc_str(e: &mut Vec<i128>, s: &[u8]) { e.push(s.len() as i128); e.extend(s.iter().map(|&b| b as i128)); }
+fn sop_str(o: &Value) -> String {
+    match &o[1] { Value::String(s) => s.clone(),
+                  Value::Array(a) => { let b = a.get(0).and_then(|x| x.as_u64()).unwrap_or(120).min(127) as u8; let n = a.get(1).and_then(|x| x.as_u64()).unwrap_or(0).min(1 << 21) as usize;
+                                       String::from_utf8(vec![b; n]).unwrap_or_default() }
+                  _ => String::new() }
+}
+fn sop_coq_str(o: &Value) -> String {
+    match &o[1] { Value::Array(a) => format!("(repeat {} (N.to_nat {}))", a.get(0).and_then(|x| x.as_u64()).unwrap_or(120).min(127), a.get(1).and_then(|x| x.as_u64()).unwrap_or(0).min(1 << 21)),
+                  _ => coq_bytes(sop_str(o).as_bytes()) }
+}
+
+/// SortableStrVec: [0,s] push_str  [1,i] get  [2] len  [3] iter  [4] clear  [5] sort_lexicographic  [6] sort_by_length
+/// [7] sort_by(reverse)  [8,i] get_sorted  [9] iter_sorted  [10] clone  [11] radix_sort (oracle only)  [12] sort  [13,s] push(String)
+fn strvec_history(cx: &mut Ctx, ops: &[Value], coq: Coq) {
+    let cell = "SortableStrVec";
+    cx.sum.eval(cell, &format!("strvec {:?}", ops), ops.len() >= 3);
+    let cj = json!({"cell": "strvec", "ops": ops});
+    #[derive(PartialEq, Clone, Copy)] enum Mode { Unsorted, Exact, ByLen }
+    let r = guarded(|| -> Result<(Vec<String>, Vec<String>, bool), String> {
+        let mut v = SortableStrVec::new();
+        let mut want: Vec<String> = vec![];
+        let mut view: Vec<String> = vec![];   // what the sorted view must show (Exact), or a sorted-by-length reference (ByLen)
+        let mut mode = Mode::Unsorted;
+        let mut coq_ops: Vec<String> = vec![]; let mut expect: Vec<String> = vec![]; let mut coq_ok = true;
+        for o in ops {
+            let code = o[0].as_u64().unwrap_or(0);
+            let i = o[1].as_u64().unwrap_or(0) as usize;
+            let mut e: Vec<i128> = vec![];
+            let mut cop: Option<String> = None;
+            match code {
+                0 | 13 => { let st = sop_str(o);
+                    let r = if code == 0 { v.push_str(&st) } else { v.push(st.clone()) };
+                    cop = Some(format!("TS (SPush {})", sop_coq_str(o)));
+                    match r { Ok(id) => { if id != want.len() { return Err(format!("push returned id {} for element {}", id, want.len())); }
+                                          if st.len() >= (1 << 20) { return Err(format!("a string of {} bytes was accepted (the length field holds 20 bits)", st.len())); }
+                                          e = vec![5, id as i128]; want.push(st); mode = Mode::Unsorted; }
+                              Err(_) => { if st.len() < (1 << 20) { return Err(format!("push of a {}-byte string refused", st.len())); } e = vec![-1]; } } }
+                1 => { let g = v.get(i).map(|x| x.to_string()); if g != want.get(i).cloned() { return Err(format!("get({}) = {:?}, a Vec<String> holds {:?}", i, g.as_deref().map(trunc), want.get(i).map(|x| trunc(x)))); }
+                       if v.get_by_id(i).map(|x| x.to_string()) != g { return Err(format!("get_by_id({}) differs from get", i)); }
+                       match &g { None => e = vec![1], Some(x) => { e = vec![2]; enc_str(&mut e, x.as_bytes()); } }
+                       if g.as_ref().map(|x| x.len()).unwrap_or(0) <= 4096 { cop = Some(format!("TS (SGet {})", i)); } else { e.clear(); } }
+                2 => { if v.len() != want.len() || v.is_empty() != want.is_empty() { return Err(format!("len() = {}, a Vec<String> holds {}", v.len(), want.len())); } e = vec![4, v.len() as i128]; cop = Some("TS SLen".into()); }
+                3 => { let g: Vec<String> = v.iter().map(|x| x.to_string()).collect(); if g != want { return Err(format!("iter() yields {} strings {:?}.., a Vec<String> holds {}", g.len(), g.iter().take(4).map(|x| trunc(x)).collect::<Vec<_>>(), want.len())); }
+                       if g.iter().map(|x| x.len()).sum::<usize>() <= 8192 { e = vec![3, g.len() as i128]; for x in &g { enc_str(&mut e, x.as_bytes()); } cop = Some("TS SIter".into()); } }
+                4 => { v.clear(); want.clear(); mode = Mode::Unsorted; e = vec![0]; cop = Some("TS SClear".into()); }
+                5 | 11 | 12 => { let r = match code { 5 => v.sort_lexicographic(), 11 => v.radix_sort(), _ => v.sort() };
+                       if r.is_err() { return Err("sort refused".into()); }
+                       view = want.clone(); view.sort(); mode = Mode::Exact; e = vec![0];
+                       if code == 11 { coq_ok = false; } else { cop = Some("TS SSortLex".into()); } }
+                6 => { if v.sort_by_length().is_err() { return Err("sort_by_length refused".into()); } view = want.clone(); view.sort(); mode = Mode::ByLen; e = vec![0]; cop = Some("TS SSortByLen".into()); }
+                7 => { if v.sort_by(|a, b| b.cmp(a)).is_err() { return Err("sort_by refused".into()); } view = want.clone(); view.sort(); view.reverse(); mode = Mode::Exact; e = vec![0]; cop = Some("TS (SSortBy rev_lex)".into()); }
+                8 => { let g = v.get_sorted(i).map(|x| x.to_string());
+                       match mode { Mode::Exact => if g != view.get(i).cloned() { return Err(format!("get_sorted({}) = {:?}, the sorted sequence has {:?}", i, g.as_deref().map(trunc), view.get(i).map(|x| trunc(x)))); },
+                                    Mode::ByLen => { let mut lens: Vec<usize> = want.iter().map(|x| x.len()).collect(); lens.sort();
+                                                     if g.as_ref().map(|x| x.len()) != lens.get(i).copied() || g.as_ref().map(|x| !want.contains(x)).unwrap_or(false) { return Err(format!("get_sorted({}) after sort_by_length = {:?}", i, g.as_deref().map(trunc))); } }
+                                    Mode::Unsorted => {} }
+                       if mode != Mode::ByLen && g.as_ref().map(|x| x.len()).unwrap_or(0) <= 4096 {
+                           match &g { None => e = vec![1], Some(x) => { e = vec![2]; enc_str(&mut e, x.as_bytes()); } } cop = Some(format!("TS (SGetSorted {})", i)); } }
+                9 => { let g: Vec<String> = v.iter_sorted().map(|x| x.to_string()).collect();
+                       match mode { Mode::Exact => if g != view { return Err(format!("iter_sorted() yields {:?}.., the sorted sequence is {:?}..", g.iter().take(4).map(|x| trunc(x)).collect::<Vec<_>>(), view.iter().take(4).map(|x| trunc(x)).collect::<Vec<_>>())); },
+                                    Mode::ByLen => { if g.len() != want.len() || g.windows(2).any(|w| w[0].len() > w[1].len()) { return Err("iter_sorted() after sort_by_length is not ordered by length".into()); }
+                                                     let mut a = g.clone(); a.sort(); if a != view { return Err("iter_sorted() after sort_by_length is not a permutation of the pushed strings".into()); } }
+                                    Mode::Unsorted => {} }
+                       if g.iter().map(|x| x.len()).sum::<usize>() <= 8192 {
+                           if mode == Mode::ByLen { let mut a = g.clone(); a.sort(); e = vec![3, 2 * g.len() as i128]; for x in &g { e.push(1); e.push(x.len() as i128); } for x in &a { enc_str(&mut e, x.as_bytes()); } cop = Some("TSViewCanon".into()); }
+                           else { e = vec![3, g.len() as i128]; for x in &g { enc_str(&mut e, x.as_bytes()); } cop = Some("TS SIterSorted".into()); } } }
+                _ => { let c = v.clone(); drop(v); v = c; e = vec![0]; cop = Some("TSClone".into()); }
+            }
+            // what the property demands after every operation: the pushed sequence, in insertion order
+            if v.len() != want.len() { return Err(format!("after op {:?}: len() = {}, a Vec<String> holds {}", o[0], v.len(), want.len())); }
+            let n = want.len();
+            for j in [0usize, n / 2, n.wrapping_sub(1)] { if j < n && v.get(j) != Some(want[j].as_str()) { return Err(format!("after op {:?}: get({}) = {:?}, pushed {:?}", o[0], j, v.get(j).map(trunc), trunc(&want[j]))); } }
+            if v.get(n).is_some() || v.get(n + 7).is_some() { return Err("get past the end was not refused".into()); }
+            if mode != Mode::Unsorted && v.get_sorted(n).is_some() { return Err("get_sorted past the end was not refused".into()); }
+            if let (Some(t), false) = (cop, e.is_empty()) { coq_ops.push(t); expect.push(zlist(&e)); }
+        }
+        Ok((coq_ops, expect, coq_ok))
+    });
+    match r {
+        Err(p) => cx.sum.fail(cell, None, cj, &format!("panicked: {}", p)),
+        Ok(Err(d)) => cx.sum.fail(cell, None, cj, &d),
+        Ok(Ok((coq_ops, expect, coq_ok))) => if coq_ok && (coq == Coq::Always || (coq == Coq::Budget && cx.room(cell))) {
+            cx.shards.push(format!("CStr [{}] [{}]", coq_ops.join("; "), expect.join("; ")), cj); }
+    }
+}
+
+/// FixedLenStrVec<N>: [0,s] push  [1,i] get  [2,i] get_bytes  [3] len  [4,s] find_exact  [5,s] count_prefix
+fn fixedlen_history_n<const N: usize>(cx: &mut Ctx, ops: &[Value], coq: Coq) {
+    let cell: &'static str = match N { 4 => "FixedLenStrVec<4>", 8 => "FixedLenStrVec<8>", 16 => "FixedLenStrVec<16>", _ => "FixedLenStrVec<300>" };
+    cx.sum.eval(cell, &format!("fixedlen {} {:?}", N, ops), ops.len() >= 3);
+    cx.sum.cell_status(cell, "M+S");
+    let cj = json!({"cell": "fixedlen", "cap": N, "ops": ops});
+    let r = guarded(|| -> Result<(Vec<String>, Vec<String>), String> {
+        let mut v: FixedLenStrVec<N> = if ops.len() % 2 == 0 { FixedLenStrVec::new() } else { FixedLenStrVec::with_capacity(ops.len()) };
+        let mut want: Vec<String> = vec![];
+        let mut coq_ops: Vec<String> = vec![]; let mut expect: Vec<String> = vec![];
+        for o in ops {
+            let code = o[0].as_u64().unwrap_or(0);
+            let i = o[1].as_u64().unwrap_or(0) as usize;
+            let mut e: Vec<i128> = vec![];
+            match code {
+                0 => { let st = sop_str(o); let fits = st.len() <= N && st.len() <= 255;
+                       match v.push(&st) { Ok(()) => { if !fits { return Err(format!("a {}-byte string was accepted by FixedLenStrVec<{}>", st.len(), N)); } want.push(st); e = vec![0]; }
+                                           Err(_) => { if fits { return Err(format!("push of a {}-byte string refused by FixedLenStrVec<{}>", st.len(), N)); } e = vec![-1]; } }
+                       coq_ops.push(format!("FPush {}", sop_coq_str(o))); }
+                1 => { let g = v.get(i).map(|x| x.to_string()); if g != want.get(i).cloned() { return Err(format!("get({}) = {:?}, a Vec<String> holds {:?}", i, g, want.get(i))); }
+                       match &g { None => e = vec![1], Some(x) => { e = vec![2]; enc_str(&mut e, x.as_bytes()); } } coq_ops.push(format!("FGet {}", i)); }
+                2 => { let g = v.get_bytes(i).map(|x| x.to_vec()); if g.as_deref() != want.get(i).map(|x| x.as_bytes()) { return Err(format!("get_bytes({}) = {:?}, a Vec<String> holds {:?}", i, g, want.get(i))); }
+                       match &g { None => e = vec![1], Some(x) => { e = vec![2]; enc_str(&mut e, x); } } coq_ops.push(format!("FGetBytes {}", i)); }
+                3 => { if v.len() != want.len() || v.is_empty() != want.is_empty() { return Err(format!("len() = {}, a Vec<String> holds {}", v.len(), want.len())); } e = vec![4, v.len() as i128]; coq_ops.push("FLen".into()); }
+                4 => { let st = sop_str(o); let g = v.find_exact(&st); let w = want.iter().position(|x| *x == st);
+                       if g != w { return Err(format!("find_exact({:?}) = {:?}, the first occurrence is {:?}", st, g, w)); }
+                       e = match g { None => vec![6], Some(k) => vec![7, k as i128] }; coq_ops.push(format!("FFind {}", sop_coq_str(o))); }
+                _ => { let st = sop_str(o); let g = v.count_prefix(&st); let w = want.iter().filter(|x| x.starts_with(st.as_str())).count();
+                       if g != w { return Err(format!("count_prefix({:?}) = {}, {} of the pushed strings start with it", st, g, w)); }
+                       e = vec![4, g as i128]; coq_ops.push(format!("FCount {}", sop_coq_str(o))); }
+            }
+            let n = want.len();
+            if v.len() != n { return Err(format!("after op {:?}: len() = {}, a Vec<String> holds {}", o[0], v.len(), n)); }
+            for j in [0usize, n / 2, n.wrapping_sub(1)] { if j < n && v.get(j) != Some(want[j].as_str()) { return Err(format!("after op {:?}: get({}) = {:?}, pushed {:?}", o[0], j, v.get(j), want[j])); } }
+            if v.get(n).is_some() || v.get_bytes(n + 1).is_some() { return Err("get past the end was not refused".into()); }
+            expect.push(zlist(&e));
+        }
+        Ok((coq_ops, expect))
+    });
+    match r {
+        Err(p) => cx.sum.fail(cell, None, cj, &format!("panicked: {}", p)),
+        Ok(Err(d)) => cx.sum.fail(cell, None, cj, &d),
+        Ok(Ok((coq_ops, expect))) => if coq == Coq::Always || (coq == Coq::Budget && cx.room("FixedLenStrVec")) {
+            cx.shards.push(format!("CFix {} [{}] [{}]", N, coq_ops.join("; "), expect.join("; ")), cj); }
+    }
+}
+fn fixedlen_history(cx: &mut Ctx, n: u64, ops: &[Value], coq: Coq) {
+    match n { 4 => fixedlen_history_n::<4>(cx, ops, coq), 8 => fixedlen_history_n::<8>(cx, ops, coq), 16 => fixedlen_history_n::<16>(cx, ops, coq), _ => fixedlen_history_n::<300>(cx, ops, coq) }
+}
+
+/// FixedLenStrVec at the 24-bit arena limit (oracle only: 65 793 pushes of 255 bytes fill the arena to 2^24 - 1 bytes)
+fn fixedlen_limit(cx: &mut Ctx) {
+    let cell = "FixedLenStrVec<300>";
+    cx.sum.eval(cell, "fixedlen_limit", true);
+    let cj = json!({"cell": "fixedlen_limit"});
+    let r = guarded(|| -> Option<String> {
+        let mut v: FixedLenStrVec<300> = FixedLenStrVec::new();
+        let block: String = (0..255u32).map(|i| (b'a' + (i % 26) as u8) as char).collect();
+        for k in 0..65793u32 { if v.push(&block).is_err() { return Some(format!("push #{} of 255 bytes refused at {} bytes (limit 2^24 - 1)", k, k as usize * 255)); } }
+        if v.push("").is_err() { return Some("an empty string was refused with 2^24 - 1 bytes stored".into()); }
+        if v.push("a").is_ok() { return Some("a 1-byte string was accepted with 2^24 - 1 bytes stored: its end offset 2^24 does not fit the contract `< 1 << 24`".into()); }
+        if v.len() != 65794 || v.get(65792) != Some(block.as_str()) || v.get(65793) != Some("") || v.get(0) != Some(block.as_str()) || v.get(65794).is_some() { return Some("read-back at the arena limit differs from a Vec<String>".into()); }
+        if v.find_exact("") != Some(65793) || v.count_prefix("abc") != 65793 { return Some("find_exact / count_prefix at the arena limit".into()); }
+        None
+    });
+    match r { Err(p) => cx.sum.fail(cell, None, cj, &format!("panicked: {}", p)), Ok(Some(d)) => cx.sum.fail(cell, None, cj, &d), Ok(None) => {} }
+}
+
+fn gen_str_ops(r: &mut Rng, fixed_n: Option<usize>) -> Vec<Value> {
+    let kind = match fixed_n { Some(4) => 1, Some(8) => 2, Some(16) => 3, _ => 0 };
+    let mut pool = gen_strings(r, kind);
+    if pool.is_empty() { pool.push("a".into()); }
+    if let Some(n) = fixed_n { if n > 255 { let l = *r.pick(&[254usize, 255, 256, 300, 301]); pool.push("q".repeat(l)); pool.push("é".repeat(127)); pool.push(format!("{}x", "é".repeat(127))); } }
+    let cnt = r.range(4, 40);
+    let mut ops: Vec<Value> = vec![];
+    let mut len: u64 = 0;
+    for _ in 0..cnt {
+        let c = r.below(100);
+        let s = r.pick(&pool).clone();
+        let idx = |r: &mut Rng, len: u64| { let rb = r.below(len + 1); *r.pick(&[0, len, len.saturating_sub(1), len + 1, rb]) };
+        let sub = |r: &mut Rng, s: &str| { let mut h = (r.below(s.len() as u64 + 1)) as usize; while !s.is_char_boundary(h) { h -= 1; } s[..h].to_string() };
+        ops.push(if fixed_n.is_some() {
+            if c < 50 { len += 1; json!([0, s]) } else if c < 65 { json!([1, idx(r, len)]) } else if c < 72 { json!([2, idx(r, len)]) } else if c < 78 { json!([3]) }
+            else if c < 90 { let q = if r.chance(1, 3) { sub(r, &s) } else { s }; json!([4, q]) } else { json!([5, sub(r, &s)]) }
+        } else {
+            if c < 38 { len += 1; json!([if c % 2 == 0 { 0 } else { 13 }, s]) } else if c < 50 { json!([1, idx(r, len)]) } else if c < 53 { json!([2]) } else if c < 58 { json!([3]) }
+            else if c < 61 { len = 0; json!([4]) } else if c < 68 { json!([5]) } else if c < 73 { json!([6]) } else if c < 78 { json!([7]) } else if c < 86 { json!([8, idx(r, len)]) }
+            else if c < 93 { json!([9]) } else if c < 96 { json!([10]) } else if c < 98 { json!([11]) } else { json!([12]) }
+        });
+    }
+    ops
+}
+
+// ---------------------------------------------------------------------------------------------
 // generators
 // ---------------------------------------------------------------------------------------------
 const CAPS: [u64; 9] = [0, 1, 2, 3, 4, 7, 8, 9, 16];
@@ -915,6 +1099,9 @@ fn run_one(cx: &mut Ctx, c: &Value) {
         "fixed" => fixed_history(cx, cap, &parse_ops(&c["ops"]), Coq::Always),
         "fastvec" => fastvec_history(cx, cap, &parse_ops(&c["ops"]), Coq::Always),
         "valvec32_limits" => valvec32_limits(cx),
+        "strvec" => strvec_history(cx, c["ops"].as_array().map(|a| a.as_slice()).unwrap_or(&[]), Coq::Always),
+        "fixedlen" => fixedlen_history(cx, cap, c["ops"].as_array().map(|a| a.as_slice()).unwrap_or(&[]), Coq::Always),
+        "fixedlen_limit" => fixedlen_limit(cx),
         "str" => { let strs: Vec<String> = c["strs"].as_array().map(|a| a.iter().map(|s| s.as_str().unwrap_or("").to_string()).collect()).unwrap_or_default();
                    str_case(cx, c["kind"].as_u64().unwrap_or(0), &strs, c["mode"].as_u64().unwrap_or(0)) }
         t => vec_cell(cx, t, cap, &parse_ops(&c["ops"]), Coq::Always),
@@ -1004,6 +1191,14 @@ pub fn run(args: &Args) {
             let ops = gen_vec_ops(&mut rng, &[0, 0, 1, 4, 5, 6, 7, 8, 9, 12, 13, 14, 15], i % 16 == 0);
             vec_cell(&mut cx, "mmapvec_u64", cap0, &ops, Coq::Budget);
         }
+        if i % 3 == 0 {
+            let ops = gen_str_ops(&mut rng, None);
+            if i == 0 { cx.sum.sample(json!({"strvec_ops": ops.iter().take(8).collect::<Vec<_>>()})); }
+            strvec_history(&mut cx, &ops, Coq::Budget);
+            let n = [4u64, 8, 16, 300][((i / 3) % 4) as usize];
+            let ops = gen_str_ops(&mut rng, Some(n as usize));
+            fixedlen_history(&mut cx, n, &ops, Coq::Budget);
+        }
         let kind = i % 13;
         let strs = gen_strings(&mut rng, kind);
         if i < 13 && kind == 0 { cx.sum.sample(json!({"strings": strs.iter().take(6).collect::<Vec<_>>()})); }
@@ -1015,6 +1210,10 @@ pub fn run(args: &Args) {
         str_case(&mut cx, kind, &strs, 0);
     }
     valvec32_limits(&mut cx);
+    fixedlen_limit(&mut cx);
+    // SortableStrVec at the 20-bit length limit, also replayed in Coq (the long strings are `repeat` terms there)
+    strvec_history(&mut cx, &[json!([0, "head"]), json!([0, [120, (1u64 << 20) - 1]]), json!([0, [121, 1u64 << 20]]), json!([13, [122, (1u64 << 20) + 5]]), json!([0, "tail"]),
+                              json!([1, 2]), json!([1, 1]), json!([1, 0]), json!([2]), json!([5]), json!([8, 0]), json!([8, 2]), json!([6]), json!([10]), json!([1, 2])], Coq::Always);
     cx.sum.dist_max("coq_cases", cx.shards.len() as u64);
     let sh = cx.shards.write(&args.out);
     cx.sum.write(&args.out, sh);
